@@ -47,11 +47,14 @@ THEOREMS = [
     "CrCube.C13.overlap_antisymmetric",
     "CrCube.C13.overlap_self_zero",
 ]
-RULE = ("count cubes cat x cat, mr x cat, cat x mr, mr x mr from random surveys (unweighted; dyadic weights without / "
+RULE = ("2-D cubes and (one case in four) 3-D cubes with a cat / MR table dimension, every partition compared with the 2-D "
+        "analysis of the survey restricted to the table element (numeric payloads: sub-tensor at the raw table position / "
+        "selected plane); count cubes cat x cat, mr x cat, cat x mr, mr x mr from random surveys (unweighted; dyadic weights without / "
         "with a weighted_squared_count measure), additive and difference subtotals on both dimensions as selected or "
         "compared column / as row, explicit order + hide + prune on both dimensions, every alpha shape (absent, float, "
         "1-3 element lists sorted or not, malformed) and only_larger flag; mean cubes (mean, stddev, "
-        "valid_count_unweighted) for Welch; MR columns with overlap / valid_overlap measures; a case is non-trivial "
+        "valid_count_unweighted) for Welch, incl. exactly two columns, with the proportions test of the same cube read from the "
+        "same slice object before and after the means test; MR columns with overlap / valid_overlap measures; a case is non-trivial "
         "when some displayed cell has a finite non-zero t; distinct = (kind, design, data) key")
 ASSUMPTIONS = [
     "counts / column bases handed to the model are the survey's tabulation (C01/C02; cross-checked here against the "
@@ -116,13 +119,21 @@ def gen_pw_transform(rng):
     return d
 
 
-def gen_counts_case(rng):
+def gen_table_var(rng):
+    return gen.gen_var(rng, rng.choice(["cat", "cat", "mr"]), "vt", n=rng.randint(1, 3), numeric="none")
+
+
+def gen_counts_case(rng, table=False):
     design = rng.choice([("cat", "cat")] * 7 + [("mr", "cat")] * 2 + [("cat", "mr")] * 3 + [("mr", "mr")])
     vars_ = [gen.gen_var(rng, k, "v%d" % i, n=rng.choice([1, 2, 2, 3, 3, 4] if i == 0 else [1, 2, 3, 3, 4, 4, 5]),
                          numeric="none") for i, k in enumerate(design)]
     axes = U.axes_of(vars_)
+    if table:
+        vars_ = [gen_table_var(rng)] + vars_
     wmode = rng.choice(["unit"] * 3 + ["weighted"] * 3 + ["squared"] * 4)
     n_resp = rng.choice([0, 3, 10, 20, 30, 45, 60, 80])
+    if table:
+        n_resp *= 2
     sv = gen.gen_survey(rng, vars_, weighted=(wmode != "unit"), n_resp=n_resp, skew=rng.random() < 0.5)
     tr = {}
     if rng.random() < 0.8:
@@ -132,19 +143,24 @@ def gen_counts_case(rng):
     if pw or rng.random() < 0.3:
         tr["pairwise_indices"] = pw
     return {"type": "counts", "vars": [v.to_json() for v in vars_], "survey": gen.survey_to_json(sv),
-            "wmode": wmode, "transforms": tr}
+            "wmode": wmode, "transforms": tr, "table": table}
 
 
 MEAN_VALS = [F(-3), F(-1), F(0), F(1, 2), F(1), F(3, 2), F(2), F(5, 2), F(4), F(7)]
 SD_VALS = [F(0), F(1, 4), F(1, 2), F(1), F(1), F(3, 2), F(2), F(3)]
 
 
-def gen_means_case(rng):
-    design = rng.choice([("cat", "cat")] * 5 + [("cat", "mr")] * 2 + [("mr", "cat")] * 2)
+def gen_means_case(rng, table=False):
+    design = rng.choice([("cat", "cat")] * 5 + [("cat", "mr")] * 2 + [("mr", "cat")] * (6 if table else 2))
     few = rng.random() < 0.3          # few base columns, several inserted ones (negative indexes beyond the base width)
+    two = table and rng.random() < 0.5   # exactly two columns: a 3-axis stddev block read on the wrong plane still has a legal shape
     vars_ = [gen.gen_var(rng, k, "v%d" % i, n=(rng.randint(1, 2) if (few and i == 1) else rng.randint(1, 4)),
-                         numeric="none") for i, k in enumerate(design)]
+                         numeric="none", allow_missing=not (two and i == 1)) for i, k in enumerate(design)]
+    if two and design[1] == "cat":
+        vars_[1] = gen.gen_var(rng, "cat", "v1", n=2, numeric="none", allow_missing=False)
     axes = U.axes_of(vars_)
+    if table:
+        vars_ = [gen_table_var(rng)] + vars_
     ncell = 1
     for s in gen.raw_shape(vars_):
         ncell *= s
@@ -159,15 +175,18 @@ def gen_means_case(rng):
     pw = gen_pw_transform(rng)
     if pw:
         tr["pairwise_indices"] = pw
-    return {"type": "means", "vars": [v.to_json() for v in vars_], "data": data, "transforms": tr}
+    return {"type": "means", "vars": [v.to_json() for v in vars_], "data": data, "transforms": tr, "table": table}
 
 
-def gen_overlap_case(rng):
+def gen_overlap_case(rng, table=False):
     design = rng.choice([("cat", "mr")] * 2 + [("mr", "mr")])
     vars_ = [gen.gen_var(rng, k, "v%d" % i, n=rng.choice([1, 2, 2, 3, 3, 4]), numeric="none") for i, k in enumerate(design)]
     axes = U.axes_of(vars_)
+    if table:
+        vars_ = [gen_table_var(rng)] + vars_
     weighted = rng.random() < 0.5
-    sv = gen.gen_survey(rng, vars_, weighted=weighted, n_resp=rng.choice([0, 5, 15, 30, 45, 60, 80]), skew=False)
+    sv = gen.gen_survey(rng, vars_, weighted=weighted, n_resp=rng.choice([0, 5, 15, 30, 45, 60, 80]) * (2 if table else 1),
+                        skew=False)
     tr = {}
     if rng.random() < 0.7:
         tr["rows_dimension"] = U.gen_dim_transforms(rng, axes[0], p_prune=0.0)
@@ -176,7 +195,7 @@ def gen_overlap_case(rng):
     if pw:
         tr["pairwise_indices"] = pw
     return {"type": "overlap", "vars": [v.to_json() for v in vars_], "survey": gen.survey_to_json(sv),
-            "wmode": "weighted" if weighted else "unit", "transforms": tr}
+            "wmode": "weighted" if weighted else "unit", "transforms": tr, "table": table}
 
 
 def generate(ctx):
@@ -184,12 +203,13 @@ def generate(ctx):
     out = []
     for _ in range(ctx.n(240, 6000)):
         r = rng.random()
-        if r < 0.68:
-            out.append(gen_counts_case(rng))
-        elif r < 0.85:
-            out.append(gen_means_case(rng))
+        table = rng.random() < 0.25        # 3-D cube: every partition against the 2-D analysis of the restricted survey
+        if r < 0.62:
+            out.append(gen_counts_case(rng, table))
+        elif r < 0.82:
+            out.append(gen_means_case(rng, table))
         else:
-            out.append(gen_overlap_case(rng))
+            out.append(gen_overlap_case(rng, table))
     return out
 
 
@@ -244,7 +264,29 @@ def _extract(vars_, flat, axes):
     return out
 
 
-def _plan(case):
+def _colbases_from_raw(vars_, flat, axes):
+    """`column_bases` of the count extractor classes from a raw (integer) tensor"""
+    shape = gen.raw_shape(vars_)
+    def at(ix):
+        k = 0
+        for s_, i in zip(shape, ix):
+            k = k * s_ + i
+        return flat[k]
+    r, c = axes
+    out = []
+    for i in range(r.n):
+        row = []
+        for j in range(c.n):
+            cix = [c.pos[j]] if c.role == "cat" else [j, 0]
+            if r.role == "cat":
+                row.append(sum(at([p] + cix) for p in r.pos))
+            else:
+                row.append(at([i, 0] + cix) + at([i, 1] + cix))
+        out.append(row)
+    return out
+
+
+def _plan2d(case):
     vars_, survey = _load(case)
     axes = U.axes_of(vars_)
     tr = case.get("transforms") or {}
@@ -308,6 +350,11 @@ def _plan(case):
         plan.update(mm=mm, sd=sd, nn=nn)
         add("means", {"op": "pw_means", "nr": nr, "nc": nc, "means": mm, "stddev": sd, "counts": nn,
                       "n_row_subs": len(rsubs), "n_col_subs": len(csubs), "row_order": ro, "col_order": co})
+        # the proportions test of the same cube works on the valid counts (weighted = unweighted)
+        cb = _colbases_from_raw(vars_, d["n"], axes)
+        add("pw", {"op": "pw", "nr": nr, "nc": nc, "counts": nn, "wbases": cb, "ubases": cb,
+                   "ucols_base": [cb[0][j] if nr else 0 for j in range(nc)], "sqbases": None,
+                   "row_subs": _subs_json(rsubs), "col_subs": _subs_json(csubs), "row_order": ro, "col_order": co})
     else:
         ov, vov = overlap_tensors(axes, survey, case["wmode"] != "unit")
         plan.update(ov=ov, vov=vov)
@@ -325,6 +372,7 @@ def _plan(case):
         sel, valid = overlap_bases(axes, ov, vov)
         sel += [sel[0] for _ in rsubs] if nr else []
         valid += [valid[0] for _ in rsubs] if nr else []
+        plan["valid"] = valid
         add("ov", {"op": "pw_overlap", "props": props, "nsub": nc,
                    "sel": [U.fmat(m) for m in sel], "valid": [U.fmat(m) for m in valid]})
     return plan
@@ -361,6 +409,21 @@ def overlap_tensors(axes, survey, weighted):
     return ov, vov
 
 
+def overlap_tensors_nd(vars_, survey, weighted):
+    """raw overlap / valid_overlap tensors of a 2-D (X, MR) or 3-D (T, X, MR) cube"""
+    if len(vars_) == 2:
+        return overlap_tensors(U.axes_of(vars_), survey, weighted)
+    T = vars_[0]
+    axes2 = U.axes_of(vars_[1:])
+    def block(pred):
+        return overlap_tensors(axes2, [(w, ans[1:]) for w, ans in survey if pred(ans[0])], weighted)
+    if T.kind == "mr":
+        cells = [[block(lambda a, i=i, s_=s_: a[i] == s_) for s_ in range(3)] for i in range(len(T.items))]
+        return [[c[0] for c in row] for row in cells], [[c[1] for c in row] for row in cells]
+    cells = [block(lambda a, p=p: a[0] == p) for p in range(len(T.cats))]
+    return [c[0] for c in cells], [c[1] for c in cells]
+
+
 def overlap_bases(axes, ov, vov):
     """`_CatXMrOverlaps` / `_MrXMrOverlaps` selected_bases, valid_bases per row: [row][a][b]"""
     r, c = axes
@@ -375,6 +438,57 @@ def overlap_bases(axes, ov, vov):
         valid.append([[sum((vov[i][p][a][q][b] for p in (0, 1) for q in (0, 1)), F(0)) for b in range(nsub)]
                       for a in range(nsub)])
     return sel, valid
+
+
+def _table_parts(T):
+    """raw index prefix of each partition of table variable T (valid categories / MR items' selected plane)"""
+    if T.kind == "mr":
+        return [[k, 0] for k in range(len(T.items))]
+    return [[p] for p in T.valid_cat_pos]
+
+
+def _in_table(T, prefix, tans):
+    return tans[prefix[0]] == 0 if T.kind == "mr" else tans[0] == prefix[0]
+
+
+def _subtensor(flat, shape, prefix):
+    """flat row-major data of tensor[prefix...] (leading axes fixed)"""
+    block = 1
+    for n in shape[len(prefix):]:
+        block *= n
+    pos = 0
+    for n, i in zip(shape, prefix):
+        pos = pos * n + i
+    return flat[pos * block:(pos + 1) * block]
+
+
+def _subcases(case):
+    """3-D case -> the 2-D case of each partition: the survey restricted to the respondents of table
+    element k (numeric payloads: the sub-tensor at the raw table position / selected plane)"""
+    vars3 = [gen.Var.from_json(d) for d in case["vars"]]
+    T = vars3[0]
+    shape3 = gen.raw_shape(vars3)
+    out = []
+    for prefix in _table_parts(T):
+        sc = {k: v for k, v in case.items() if k not in ("table", "vars", "survey", "data")}
+        sc["vars"] = case["vars"][1:]
+        if "survey" in case:
+            sc["survey"] = [[w, ans[1:]] for w, ans in case["survey"] if _in_table(T, prefix, ans[0])]
+        if "data" in case:
+            sc["data"] = {k: _subtensor(v, shape3, prefix) for k, v in case["data"].items()}
+        out.append(sc)
+    return out
+
+
+def _plan(case):
+    if not case.get("table"):
+        return _plan2d(case)
+    parts, ops = [], []
+    for sc in _subcases(case):
+        pl = _plan2d(sc)
+        parts.append((sc, pl, len(ops)))
+        ops.extend(pl["ops"])
+    return {"parts": parts, "ops": ops}
 
 
 def lean_ops(case):
@@ -404,6 +518,12 @@ def _lt(a, b):
 
 def _near(p, alpha):
     return p is not None and not math.isnan(p) and abs(p - alpha) <= 1e-9 * max(abs(p), abs(alpha))
+
+
+def _singular(m, g):
+    def big(x):
+        return isinstance(x, float) and not math.isnan(x) and abs(x) > 1e6
+    return big(m) and big(g) and not (math.isinf(m) and math.isinf(g))
 
 
 def _sig(p, t, alpha, only_larger):
@@ -463,18 +583,30 @@ def _mk_response(case, vars_, survey):
         res["n"] = sum(d["n"])
         return resp
     # overlap
-    plan_axes = U.axes_of(vars_)
     weighted = case["wmode"] != "unit"
-    ov, vov = overlap_tensors(plan_axes, survey, weighted)
+    ov, vov = overlap_tensors_nd(vars_, survey, weighted)
     resp = gen.cube_response(vars_, survey, weighted)
     res = resp["result"]
-    c = plan_axes[1]
+    c = U.axes_of(vars_[-2:])[1]
     meta = {"derived": True, "references": {}, "type": {"class": "numeric", "integer": not weighted,
             "missing_reasons": {"No Data": -1}, "missing_rules": {},
             "subvariables": [it["subvar_id"] for it in c.var.items]}}
     res["measures"]["overlap"] = {"data": [gen.num(x) for x in _flatten(ov)], "metadata": meta, "n_missing": 0}
     res["measures"]["valid_overlap"] = {"data": [gen.num(x) for x in _flatten(vov)], "metadata": meta, "n_missing": 0}
     return resp
+
+
+class _Findings(list):
+    """findings list that prefixes every detail with the partition it belongs to"""
+
+    def __init__(self, where):
+        super().__init__()
+        self.where = where
+
+    def append(self, f):
+        if self.where:
+            f = dict(f, detail=self.where + f["detail"])
+        super().append(f)
 
 
 def _cmp(findings, kind, locus, what, impl, expected):
@@ -508,13 +640,40 @@ def _alpha_expected(case):
 def evaluate(case, louts, ctx):
     from cr.cube.cube import Cube
     plan = _plan(case)
+    tr = case.get("transforms") or {}
+    vars_all = [gen.Var.from_json(d) for d in case["vars"]]
+    survey_all = gen.survey_from_json(case["survey"]) if "survey" in case else None
+    resp = _mk_response(case, vars_all, survey_all)
+
+    def mk(k):
+        # a FRESH slice object each time (the library rewrites ids inside the dicts it is given)
+        return lambda: Cube(copy.deepcopy(resp), transforms=copy.deepcopy(tr)).partitions[k]
+
+    if not case.get("table"):
+        return _eval_part(case, plan, louts, mk(0), ctx, "")
+    nparts = common.call_impl(lambda: len(Cube(copy.deepcopy(resp), transforms=copy.deepcopy(tr)).partitions))
+    ctx.count("3d:table-%s" % vars_all[0].kind)
+    if nparts != len(plan["parts"]):
+        return [{"kind": "spec", "locus": "3d.npartitions", "detail": "%r partitions, expected %d" % (
+            nparts, len(plan["parts"]))}], None
+    findings, key = [], None
+    for k, (sc, pl, off) in enumerate(plan["parts"]):
+        f, kk = _eval_part(sc, pl, louts[off:off + len(pl["ops"])], mk(k), ctx, "partition %d of a 3-D cube: " % k)
+        findings.extend(f)
+        if kk is not None:
+            key = ("3d", vars_all[0].kind) + tuple(kk)
+    return findings, key
+
+
+def _eval_part(case, plan, louts, mkpart, ctx, where):
+    """compare ONE slice (the only partition of a 2-D cube, or partition k of a 3-D cube) with the
+    2-D analysis `plan` of (the restricted) `case`"""
     vars_, survey, axes = plan["vars"], plan["survey"], plan["axes"]
     rsubs, csubs = plan["rsubs"], plan["csubs"]
     L = lambda name: louts[plan["idx"][name]]  # noqa
-    findings = []
+    findings = _Findings(where)
     tr = case.get("transforms") or {}
-    resp = _mk_response(case, vars_, survey)
-    part = Cube(resp, transforms=copy.deepcopy(tr)).partitions[0]   # the library rewrites ids inside the dict it is given
+    part = mkpart()
     nr, nc = axes[0].n, axes[1].n
     nfr, nfc = nr + len(rsubs), nc + len(csubs)
     ctx.count("type:%s" % case["type"])
@@ -615,7 +774,33 @@ def evaluate(case, louts, ctx):
         ip = common.call_impl(lambda: getattr(part, p_name)(c))
         mt = [[evT[a][i][b] for b in fc] for i in fr]
         mp = [[evP[a][i][b] for b in fc] for i in fr]
-        _cmp(findings, "model", "seam.%s" % t_name, "selected display column %d (signed %d)" % (c, co[c]), it, mt)
+        if isinstance(it, list) and isinstance(ip, list) and overlap:
+            # the overlap variance term  (1/df)(pi_a(1-pi_a) + pi_b(1-pi_b) + 2 pi_a pi_b - 2 pi_ab)  can cancel to exactly 0
+            # over Q (or df = 0 makes it inf * 0) while the floats keep a rounding residue of either sign
+            # (0/0 = nan in the model, 0.0 / nan / huge in the library): rounding is not modelled, skip such cells
+            vb = plan["valid"]
+            for ri, i in enumerate(fr):
+                for bi, b in enumerate(fc):
+                    term = mT[a][i][b]
+                    zero_den = isinstance(term, dict) and "divsqrt" in term and term["divsqrt"][1] in ("0", "nan")
+                    df0 = i < len(vb) and a != b and vb[i][a][a] + vb[i][b][b] - vb[i][a][b] == 0
+                    if (zero_den or df0) and a != b and ri < len(it) and bi < len(it[ri]):
+                        mt[ri][bi], mp[ri][bi] = it[ri][bi], ip[ri][bi]
+                        ctx.count("cells:overlap-degenerate-skipped")
+        if isinstance(it, list) and isinstance(ip, list) and not means and not overlap:
+            # difference subtotals: "proportions" outside [0,1] can make the variance sum cancel to exactly 0 over Q
+            # while the floats keep a 1e-17 residue (t = -inf vs -1.8e8): rounding is not modelled, skip such cells
+            for ri, i in enumerate(fr):
+                for bi, b in enumerate(fc):
+                    if (row_is_diff(i) or col_is_diff(a) or col_is_diff(b)) and ri < len(it) and bi < len(it[ri]) \
+                            and _singular(mt[ri][bi], it[ri][bi]):
+                        mt[ri][bi], mp[ri][bi] = it[ri][bi], ip[ri][bi]
+                        ctx.count("cells:difference-singular-skipped")
+        if isinstance(it, dict) and "raises" in it:
+            findings.append({"kind": "spec", "locus": "%s.raises-%s" % (t_name, it["raises"]), "detail":
+                             "%s(%d) raises %s (signed column %d)" % (t_name, c, it["raises"], co[c])})
+        else:
+            _cmp(findings, "model", "seam.%s" % t_name, "selected display column %d (signed %d)" % (c, co[c]), it, mt)
         if overlap:
             # KNOWN: the overlap helper reports p = 0.0 for a column against itself (pinned by the
             # test-suite); compared under its own locus
@@ -633,6 +818,26 @@ def evaluate(case, louts, ctx):
         else:
             _cmp(findings, "model", "seam.%s" % p_name, "selected display column %d (signed %d)" % (c, co[c]), ip, mp)
         et, ep, ok = mt, mp, [[False] * len(fc) for _ in fr]
+        if means and isinstance(it, list) and isinstance(ip, list) and a < nc:
+            # Welch's test straight from the payload cells (base rows / columns; selected base column)
+            import numpy as np
+            mm_, sd_, nn_ = plan["mm"], plan["sd"], plan["nn"]
+            def fl(x):
+                return float("nan") if x is None else float(F(x))
+            for ri, i in enumerate(fr):
+                for bi, b in enumerate(fc):
+                    if i >= nr or b >= nc:
+                        continue
+                    with np.errstate(all="ignore"):
+                        m1, v1, n1 = np.float64(fl(mm_[i][b])), np.float64(fl(sd_[i][b])) ** 2, np.float64(nn_[i][b])
+                        m0, v0, n0 = np.float64(fl(mm_[i][a])), np.float64(fl(sd_[i][a])) ** 2, np.float64(nn_[i][a])
+                        wt = float((m1 - m0) / np.sqrt(v1 / n1 + v0 / n0))
+                        df = (v1 / n1 + v0 / n0) ** 2 / ((v1 / n1) ** 2 / (n1 - 1) + (v0 / n0) ** 2 / (n0 - 1))
+                        wp = _p_formula(wt, df)
+                    g_t = it[ri][bi] if ri < len(it) and bi < len(it[ri]) else None
+                    g_p = ip[ri][bi] if ri < len(ip) and bi < len(ip[ri]) else None
+                    _cmp(findings, "spec", "welch.t_stats", "t(a=%d,b=%d,row=%d) vs Welch on the payload cells" % (a, b, i), g_t, wt)
+                    _cmp(findings, "spec", "welch.p_vals", "p(a=%d,b=%d,row=%d) vs Welch on the payload cells" % (a, b, i), g_p, wp)
         if sT is not None and isinstance(it, list) and isinstance(ip, list):
             et = [row[:] for row in mt]
             ep = [row[:] for row in mp]
@@ -700,6 +905,41 @@ def evaluate(case, louts, ctx):
                 if not common.num_close(x, y):
                     findings.append({"kind": "spec", "locus": "p_vals.not-symmetric",
                                      "detail": "p(%d,%d)=%r p(%d,%d)=%r row %d" % (c1, c2, x, c2, c1, y, ri)})
+
+    # ---- a mean cube also answers the proportions test (on its valid counts): both tests, read from
+    # ---- the same slice object in either order, must be what a fresh object gives for each alone
+    if means and len(fr) and len(fc):
+        def read_props(sl):
+            return {"t": [common.call_impl(lambda c=c: sl.pairwise_significance_t_stats(c)) for c in range(len(co))],
+                    "p": [common.call_impl(lambda c=c: sl.pairwise_significance_p_vals(c)) for c in range(len(co))],
+                    "idx": _impl_indices(common.call_impl(lambda: sl.pairwise_indices))}
+        def read_means(sl):
+            return {"t": [common.call_impl(lambda c=c: sl.pairwise_significance_means_t_stats(c)) for c in range(len(co))],
+                    "p": [common.call_impl(lambda c=c: sl.pairwise_significance_means_p_vals(c)) for c in range(len(co))],
+                    "idx": _impl_indices(common.call_impl(lambda: sl.pairwise_means_indices))}
+        A = read_props(mkpart())
+        B = read_means(mkpart())
+        sC = mkpart()
+        C1, C2 = read_props(sC), read_means(sC)
+        sD = mkpart()
+        D1, D2 = read_means(sD), read_props(sD)
+        for nm, got, ref in (("proportions-read-first", C1, A), ("means-after-proportions", C2, B),
+                             ("means-read-first", D1, B), ("proportions-after-means", D2, A)):
+            for fld in ("t", "p", "idx"):
+                ok_, where_ = common.deep_close(got[fld], ref[fld])
+                if not ok_:
+                    findings.append({"kind": "spec", "locus": "read-order.%s" % nm, "detail":
+                                     "%s of the %s differ%s from what a fresh slice object returns" % (
+                                         fld, nm.replace("-", " "), where_)})
+                    break
+        pwm = L("pw")
+        for c in range(len(co)):
+            a = fc[c]
+            _cmp(findings, "model", "seam.means-cube.pairwise_significance_t_stats", "selected display column %d" % c,
+                 A["t"][c], [[_ev(pwm["t"][a][i][b]) for b in fc] for i in fr])
+            _cmp(findings, "model", "seam.means-cube.pairwise_significance_p_vals", "selected display column %d" % c,
+                 A["p"][c], [[_ev(pwm["p"][a][i][b]) for b in fc] for i in fr])
+        ctx.count("means:both-tests-both-orders")
 
     # ---- index sets
     def expected_sets(al):
